@@ -75,7 +75,8 @@ def main():
         args.json,
     )
 
-    if len(list(filter(None, [file, cmd, mod, eval_]))) != 1:
+    # An empty string is a program too, so count the options that were given
+    if sum(x is not None for x in [file, cmd, mod, eval_]) != 1:
         parser.error("Must specify exactly one of file, cmd, eval, or mod")
 
     console = Console()
